@@ -278,11 +278,32 @@ def main():
         roots = [os.path.join(a.work, f'c{ci}r{i}') for i in range(n_roots)]
         nthreads = 3 if ci < a.threads3 else 2
         jobs = [(rnd.choice(fields), rnd.choice(ids)) for _ in range(nthreads)]
+        merged_case = ci == a.threads3 + 1 or (ci > a.threads3 and rnd.random() < 0.15)
+        if merged_case:
+            # two datasets merged, a cached field computed from two merged fields, the threads ask for entries of DIFFERENT datasets:
+            # the routing of a call is its own, whatever another call routes meanwhile
+            ia, ib = ['a1', 'a2'], ['b1', 'b2']
+            spec = [{'t': 'merge', 'parts': [[{'t': 'source', 'ids': ia, 'fields': {'image': 's001', 'mask': 's002'}}],
+                                             [{'t': 'source', 'ids': ib, 'fields': {'image': 's003', 'mask': 's004'}}]]},
+                    {'t': 'transform', 'fields': {'both': ['s005', ['image', 'mask']]}, 'params': {}, 'inherit': True},
+                    {'t': 'ram', 'names': rnd.choice([['both'], None]), 'size': rnd.choice([None, 1])}]
+            ids, fields, cols = ia + ib, ['both', 'image', 'mask'], False
+            jobs = [('both', rnd.choice(ia)), ('both', rnd.choice(ib))][:nthreads] + [('image', 'a1')] * (nthreads - 2)
+            roots = []
         if cols:
             # the threads ask for the same column on different keys: keys of one shard are loaded by whoever comes first
             f = rnd.choice([n for d in spec if d['t'] == 'columns' for n in d['names']])
             ks = rnd.sample(ids, min(nthreads, len(ids)))
             jobs = [(f, ks[i % len(ks)]) for i in range(nthreads)]
+        boxed_case = ci == a.threads3 + 2
+        if boxed_case:
+            # values that are equal to nothing but themselves (objects without __eq__): two threads that both miss an entry both compute it
+            # and both store it - the second store replaces an "unequal" value and is as harmless as any other
+            from common import Box
+            sympool.TABLE['t015'] = lambda key: Box('item-' + key)
+            spec = [{'t': 'source', 'ids': ['a1', 'a2'], 'fields': {'image': 't015'}}, {'t': 'ram', 'names': None, 'size': None}]
+            ids, fields, cols, roots = ['a1', 'a2'], ['image'], False, []
+            jobs = [('image', 'a1')] * nthreads
         ram_layers = [i for i, d in enumerate(spec) if d['t'] == 'ram']
         if ram_layers and rnd.random() < 0.3:
             jobs[-1] = ('$clear', rnd.choice(ram_layers))
